@@ -73,9 +73,10 @@ inductive CallKind where
 def CallKind.op : CallKind → Op
   | .call => .call | .callcode => .callcode | .delegatecall => .delegatecall | .staticcall => .staticcall
 
-/-- How a frame body ends. `retCode t` / `retBig` / `retHuge` are RETURNs of 2 /
-    24576 / 24577 bytes: in a CREATE frame they mean "code stored", "cannot pay for
-    code storage", "max code size exceeded"; elsewhere they are plain successes. -/
+/-- How a frame body ends. `retCode t` / `retBig` / `retHuge` are RETURNs of 2 / 24576 /
+    MaxCodeSize+1 (= 245761) bytes: in a CREATE frame they mean "code stored", "cannot pay for code
+    storage" (24576*200*30 gas exceeds what the harness ever hands a frame), "max code size
+    exceeded"; elsewhere they are plain successes. -/
 inductive Ending where
   | stop | revert | invalid | oog | retCode (tag : Nat) | retBig | retHuge
   deriving DecidableEq, Repr, Inhabited
@@ -266,7 +267,10 @@ def createFrameK (env : Env) (depth : Nat) (ro : Bool) (self : Addr) (two : Bool
   | .enter saved w' self' ro' _ => createExit env saved addr (k (depth + 1) ro' self' w')
 
 /-- `opAuthCall` + `evm.AuthCall`: no frame (flag false) when nothing is authorized or the
-    nonce operand differs from the authorized account's nonce. -/
+    nonce operand differs from the authorized account's nonce. `authorized` is the frame's
+    `callContext.authorized` at this point: `none` = no AUTH has succeeded in this frame yet
+    (an authorization, once given, stays for the rest of the frame; the harness re-AUTHs before
+    every authorized AUTHCALL and only emits `none` before the first one). -/
 def authFrameK (env : Env) (depth : Nat) (ro : Bool) (authorized : Option Addr) (authNonce : Nat)
     (target : Addr) (value : Nat) (k : Nat → Bool → Addr → World → Result) (w : World) : Result :=
   match authorized with
